@@ -2128,3 +2128,56 @@ async fn d52_oversized_first_record_makes_the_store_unopenable() {
 	tokio::time::timeout(std::time::Duration::from_secs(10), put(&t, b"small", b"v")).await.expect("D52: a small commit after the reopen timed out");
 	let _ = tokio::time::timeout(std::time::Duration::from_secs(10), t.close()).await;
 }
+
+// D53 (probe): a version NEWER than a replace is dropped by compaction
+#[tokio::test(flavor = "multi_thread")]
+async fn d53_version_newer_than_a_replace_is_lost_in_compaction() {
+	for with_index in [false, true] {
+		let d = td();
+		let opts = mk_opts(d.path().to_path_buf(), |o| {
+			o.enable_versioning = true;
+			o.enable_vlog = true;
+			o.vlog_value_threshold = 0;
+			o.enable_versioned_index = with_index;
+			o.level_count = 3;
+		});
+		let tree = Tree::new(Arc::clone(&opts)).unwrap();
+		let hist = |tree: &Tree| {
+			let tx = tree.begin().unwrap();
+			let mut it = tx.history(&b"k"[..], &b"l"[..]).unwrap();
+			let mut v = vec![];
+			let mut ok = it.seek_first().unwrap();
+			while ok {
+				v.push((it.key().timestamp(), String::from_utf8_lossy(&it.value().unwrap()).to_string()));
+				ok = it.next().unwrap();
+			}
+			v
+		};
+		{
+			let mut tx = tree.begin().unwrap();
+			tx.set_at(b"k", b"v5", 5).unwrap();
+			tx.commit().await.unwrap();
+		}
+		tree.flush().unwrap();
+		{
+			let mut tx = tree.begin().unwrap();
+			tx.replace(b"k", b"r10").unwrap();
+			tx.commit().await.unwrap();
+		}
+		tree.flush().unwrap();
+		let base = hist(&tree).first().map(|x| x.0).unwrap();
+		for (i, v) in [b"v20", b"v30"].iter().enumerate() {
+			let mut tx = tree.begin().unwrap();
+			tx.set_at(b"k", *v, base + 10 * (i as u64 + 1)).unwrap();
+			tx.commit().await.unwrap();
+			tree.flush().unwrap();
+		}
+		let before = hist(&tree);
+		tree.compact(Arc::new(Strategy::default())).unwrap();
+		let after = hist(&tree);
+		println!("D53 index={with_index}: before {before:?}\n                      after  {after:?}");
+		assert_eq!(before.len(), 3, "precondition: the replace erased v5; r10, v20, v30 are listed");
+		assert_eq!(after, before, "D53: index={with_index}: compaction changed the history");
+		let _ = tokio::time::timeout(std::time::Duration::from_secs(10), tree.close()).await;
+	}
+}
